@@ -759,3 +759,31 @@ Section Example.
     - intros A b sv H. injection H as <-. reflexivity.
   Qed.
 End Example.
+
+(* ================================================================================================ *)
+(* Part K: Preloads.set_* with the concrete kernels: no kernel hypothesis left                        *)
+From PAV Require Import Proofs.C15s.
+Lemma c04_set_laws (c : @convolver ROps) (m : mask) (Kp : @kernel ROps) encf dec slv ldc ldr (inp : input R) (np : nat) mode :
+  wf_input c encf np inp -> set_laws (KR c m Kp encf dec slv ldc ldr) inp mode.
+Proof.
+  intro WF. split; [now apply (c04_law_dlf c m Kp encf dec slv ldc ldr inp np)|].
+  split; [now apply (c04_law_momm c m Kp encf dec slv ldc ldr inp np)|].
+  intro Ef. destruct mode as [w|]; [apply dvm_law_wt; [apply c04_shape_dv_wt | exact Ef] | now apply (c04_dvm_law_map c m Kp encf dec slv ldc ldr inp np)].
+Qed.
+Theorem c04_set_preloads_fresh (c : @convolver ROps) (m : mask) (Kp : @kernel ROps) encf dec slv ldc ldr (Cm : cmpk R)
+  (inp0 : input R) (np : nat) own0 cmdm0 f0 f1 reads0 ss P :
+  wf_input c encf np inp0 ->
+  make_fit (KR c m Kp encf dec slv ldc ldr) inp0 own0 cmdm0 = Ok f0 ->
+  consistent (KR c m Kp encf dec slv ldc ldr) inp0 (f_mode f0) own0 ->
+  consistent (KR c m Kp encf dec slv ldc ldr) inp0 (f_mode f0) P ->
+  let K := KR c m Kp encf dec slv ldc ldr in
+  let r := run_setters K code Cm ss P (snd (freads K code f0 reads0)) f1 in
+  let P' := snd (fst (fst r)) in
+  consistent K inp0 (f_mode f0) P' /\
+  (forall reads1, fst (freads K code (snd (fst r)) reads1) = map (pure K inp0 (f_mode f0)) reads1) /\
+  (forall h, make_inversion K inp0 P' = Ok (f_mode f0) ->
+             fst (run_history K inp0 code P' h) = map (fun qs => Ok (map (pure K inp0 (f_mode f0)) qs)) h).
+Proof.
+  intros WF Hmk Hown HP. apply (set_preloads_fresh R (KR c m Kp encf dec slv ldc ldr) Cm inp0 own0 cmdm0 f0 f1 reads0 ss P); try assumption.
+  now apply (c04_set_laws c m Kp encf dec slv ldc ldr inp0 np).
+Qed.
